@@ -12,6 +12,27 @@ pub struct C02 {
     pub tier: Tier,
 }
 
+impl C02 {
+    /// one non-deep coherence pass at the end of the history (used by the libFuzzer target, where
+    /// throughput matters more than per-step checking)
+    pub fn check_light(case: &HistCase) -> Outcome {
+        let mut out = Outcome::new();
+        let Some((mut m, mut g)) = run_ctor(case, &mut out) else {
+            return out;
+        };
+        out.failures.clear();
+        for op in &case.ops {
+            let (mr, gr) = apply(op, case.wmode, &mut m, &mut g);
+            if mr != gr {
+                return out;
+            }
+        }
+        let q = query_names(&m, case.universe <= 6);
+        coherent(&g, &m, &q, false, &mut out);
+        out
+    }
+}
+
 impl Prop for C02 {
     type Case = HistCase;
     fn id(&self) -> &'static str {
